@@ -19,7 +19,7 @@ pub struct P0;
 pub const RULE: &str = "a case is non-trivial when a validation on a fresh Seeded compared a derived address with the account key (accept or AddressMismatch) or took an error/panic path (create error, find panic, access before validation)";
 
 /// Test knob (mutation experiments only, never set by bin/check): leave out the corpus and the seed
-/// structs of the known-finding class D10 (n + 2 > 16 slots), to see what else a change affects.
+/// structs of the former known-finding class D10 (15 user seeds), to see what else a change affects.
 pub fn exclude_d10() -> bool {
     std::env::var("HX_SEEDS_EXCLUDE_D10").map(|v| v == "1").unwrap_or(false)
 }
@@ -63,8 +63,8 @@ fn main() {
     let args = Args::parse();
     hx_common::quiet_panics();
     if args.prop == "corpus-d10" {
-        // helper: print the minimal D10 case (used once to create corpus/C10/*.replay)
-        gen::print_d10_corpus();
+        // helper: write the D10 regression cases (used to create corpus/C10/*.replay)
+        gen::write_d10_corpus(&args);
         return;
     }
     assert_eq!(args.prop, "C10", "hx-seeds serves C10");
